@@ -779,7 +779,7 @@ func verifBkEnter() int32 {
 
 //go:norace
 func verifBkLeave(tok int32) {
-	if VerifBkLeave != nil && tok >= 0 {
+	if VerifBkLeave != nil && tok != -1 {
 		VerifBkLeave(tok)
 	}
 }
